@@ -113,8 +113,9 @@ def run(ctx):
                     ("CsptpExchange_fix1.cfg", dict(workers=1, timeout=600))]
             bg["exh"] = parallel_tlc(ctx, jobs)
             if not q:
-                bg["deep"] = parallel_tlc(ctx, [("CsptpExchange_deep.cfg", dict(workers=5, timeout=2400, heap="16g")),
-                                                ("CsptpExchange_deep2.cfg", dict(workers=3, timeout=2400, heap="8g"))])
+                bg["deep"] = parallel_tlc(ctx, [("CsptpExchange_deep.cfg", dict(workers=3, timeout=1500, heap="10g")),
+                                                ("CsptpExchange_deep2.cfg", dict(workers=3, timeout=1500, heap="8g")),
+                                                ("CsptpExchange_deep3.cfg", dict(workers=2, timeout=1500, heap="8g"))])
             # outside the assumptions: the specification itself shows the mixing (not a verdict about the code)
             bg["obs"] = parallel_tlc(ctx, [(c, dict(workers=1, timeout=300, allow_violation=True))
                                            for c in ("CsptpExchange_obs1.cfg", "CsptpExchange_obs2.cfg", "CsptpExchange_reuse.cfg")])
@@ -177,6 +178,11 @@ def body(ctx, q):
 
     # ---- 4. TLC validates what the real code did
     nval = len(scheds) + len(wscheds)
+    if os.environ.get("VERIF_X01_CORRUPT"):
+        # negative control of the validation step itself: one field of one recorded measurement is falsified
+        victim = acc[len(acc) // 2]
+        fld = os.environ["VERIF_X01_CORRUPT"]
+        victim[fld] = (not victim[fld]) if isinstance(victim[fld], bool) else victim[fld] + 1
     cur = recs
     for attempt in range(6):
         pp = ctx.path("trace_cur.ndjson")
@@ -219,7 +225,7 @@ def body(ctx, q):
                    accepted=len(acc), accepted_after_clock_step_inside_exchange=sum(1 for x in acc if not x["thsame"]),
                    outcomes=got, real_server_requests=len(sreq), real_server_responses=len(sresp),
                    exhaustive=True,
-                   exhaustive_configs="CsptpExchange_exh/exhtc/exh2/wip/fix1 (and deep/deep2 in the thorough tier)",
+                   exhaustive_configs="CsptpExchange_exh/exhtc/exh2/wip/fix1 (and deep/deep2/deep3 in the thorough tier)",
                    rule="TLC -simulate walks of CsptpExchangeGen (5 calls; loss, reordering, delay of all four datagrams, "
                         "duplicated responses, forged responses of 7 kinds, transparent-clock residence, server clock steps "
                         "of +-40 ms, deadline expiry) executed by the harness network between the real CSPTPClientIP and a "
